@@ -78,6 +78,47 @@ theorem C02_keeps_full_instance : ∃ (o0 o : BOut), ∃ out0 out,
   rw [e1] at h5; cases h5
   exact ⟨o0, o, out0, out, h1, h4, h3, h6, h7⟩
 
+/-! ## `Frag2` after the repairs of `not` and `contains`:
+`/r/*[contains('x1', @x) and not(count(@y)) and ends-with(@x, @x)]` -/
+
+def tC : String := "/r/*[contains('x1', @x) and not(count(@y)) and ends-with(@x, @x)]"
+def atX : Ast := .axis (atA "x") .none
+def bC : Ast :=
+  .oper "and"
+    (.oper "and" (.call "contains" "" (.acons (.str "x1") (.acons atX .anil)))
+      (.call "not" "" (.acons (.call "count" "" (.acons (.axis (atA "y") .none) .anil)) .anil)))
+    (.call "ends-with" "" (.acons atX (.acons atX .anil)))
+def pC : Ast := .filter pA0 bC
+
+theorem pC_parsed : ParsesTo tC pC := ApiSem.parsesTo_eq (by decide +kernel)
+
+theorem bC_frag : Frag2 false bC :=
+  .and _ _
+    (.and _ _ (.strLitPath _ _ _ _ (by decide) (.axis _ _ .none (by decide)) (.axis _ _ (by decide) .none))
+      (.notCount _ _ _ (.axis _ _ .none (by decide)) (.axis _ _ (by decide) .none)))
+    (.strPath2 _ _ _ _ (by decide) (.axis _ _ .none (by decide)) (.axis _ _ (by decide) .none)
+      (.axis _ _ .none (by decide)) (.axis _ _ (by decide) .none))
+theorem pC_frag : Frag2 true pC := .filter _ _ pA0_frag bC_frag
+
+theorem pC_built : ∃ o, build (fun _ => true) 100 true false pC {} {} = .ok o :=
+  exists_ok (by decide +kernel)
+
+theorem pC_spec : Spec.eval (F := Int) d0 pC ⟨.node 0, 1, 1⟩ =
+    .ok (.val (.nodes [.node 2, .node 6]) (some [[.node 2, .node 6]])) := by decide +kernel
+
+/-- **`C02_main_full`** on a node-set *second* argument of `contains`/`ends-with` and on `not` of a
+number: the result is `{a[1], a[2]}` (before the repairs the engine raised "argument type must be
+string" on `contains('x1', @x)` and answered `false` to `not(count(@y))`) -/
+theorem C02_main_full_instance_repaired : ∃ o out,
+    build (fun _ => true) 100 true false pC {} {} = .ok o ∧
+    sel (F := Int) d0 {} o.q (.node 0) = .ok out ∧ ∀ x, x ∈ refs out ↔ x ∈ [Ref.node 2, .node 6] := by
+  obtain ⟨o, hb⟩ := pC_built
+  obtain ⟨out, ns, g, h1, h2, h3⟩ := Theorems.C02.C02_main_full (F := Int) wf_d0 {} rfl hashInj_d0
+    (fun _ => true) 100 pC pC_frag {} o hb (.node 0) (by decide)
+  rw [pC_spec] at h2
+  cases h2
+  exact ⟨o, out, hb, h1, h3⟩
+
 /-! ## `Frag` (the first fragment): `/r/*[text() = 't' or @y]`, `b = not(@y)` -/
 
 def pB : Ast := .filter pA0 bA2
